@@ -81,7 +81,7 @@ BOUNDARIES = [
     "dense:one-cell", "dense:L=0", "dense:L=1", "dense:no-padding-needed", "dense:fill=existing-value",
     # store / aliasing
     "store:fill-view-first-row", "store:fill-view-last-row", "store:view-of-view", "store:clone-of-view",
-    "store:fill-after-same-object-cat", "store:whole-slice-is-same-object",
+    "store:fill-after-same-object-cat", "store:whole-slice-is-same-object", "store:cat-reads-written-view",
     # numeric representation (magnitudes around 2**24, 2**31, 2**53, 2**62; every way to pass a fill value)
     "numeric:big-int-fill-forms", "numeric:big-float-fill-forms", "numeric:big-cat-clone-dense", "numeric:mixed-dtype-cat",
     # error paths of the constructors and of the dispatch
@@ -923,6 +923,10 @@ def boundary_cases(rng):
                 add("store:fill-after-same-object-cat", kind, dtype, None,
                     prog=[B, {"op": "cat", "vs": [0, 0], "dim": d, "via": via}, F(1, 0, fills[1]), F(0, 2, fills[3]),
                           {"op": "cat", "vs": [0], "dim": d, "via": "tf"}, F(4, 1, fills[1])])
+            for d in (0, 1):   # (Props/C06.v ex_met_store) a column view of a row view is written, then read by a cat
+                add("store:cat-reads-written-view", kind, dtype, None,
+                    prog=[B, S(0, 0, sl(1, 3)), S(1, 1, {"t": "int", "i": 0}), F(2, 0, fills[1]),
+                          {"op": "cat", "vs": [1, 1], "dim": d, "via": via}, F(4, 1, fills[3]), S(0, 1, sl(0, 2))])
             add("store:whole-slice-is-same-object", kind, dtype, None, prog=[B, S(0, 0, sl(0, 3)), S(0, 1, sl(None, None)), F(1, 0, fills[1]), F(2, 2, fills[3])])
             # ---- numeric representation
             if dtype == "int":
